@@ -75,12 +75,36 @@ theorem C04_into_stream (cfg : Cfg) (s : UniAccept.St) (ty : Nat) (hty : s.ty = 
     ∃ k, UniAccept.intoStream s = some k ∧ absKind cfg k = streamTy cfg.wt ty :=
   into_stream cfg s ty hty hid
 
-/-- a stream of unknown type is told to stop with H3_STREAM_CREATION_ERROR (RFC 9114 §6.2 SHOULD)
-    and never causes a connection error; neither does a stream dropped before its type is known -/
-theorem C04_unknown_stream (cfg : Cfg) (c : Conn) (ty : Nat) :
-    acceptArrival cfg c (.kind (.unknown ty)) = { conn := c, stop := some 0x0103 } ∧
-    acceptArrival cfg c .dropped = { conn := c } :=
-  unknown_stream cfg c ty
+/-- **Streams the RFC table tolerates never cause a connection error** — stated against the
+    oracle, not against the model's own arms.  Whatever header the peer sent: if its type — the
+    RFC 9000 §16 reading, `C04_type_resolution` — is one that `Spec.streamTy` calls unknown (a
+    reserved `0x1f * N + 0x21` value, any other value, the WebTransport type with the extension
+    off), the verdict of `Spec.ControlRules.verdict` is `ok` in every oracle state, and the code,
+    having resolved the stream (`s.ty = some ty`, the id present where the type has one), classifies
+    it (`into_stream`) and takes an arm of `poll_accept_recv` that raises no connection error and
+    leaves the connection state as it was; all it may do is STOP_SENDING with
+    H3_STREAM_CREATION_ERROR (§6.2 SHOULD).  The same for a stream closed or reset before its header
+    was complete (`closedEarly` / `PollTypeError::EndOfStream`). -/
+theorem C04_unknown_stream (cfg : Cfg) (c : Conn) (sp : St) (s : UniAccept.St) (ty : Nat)
+    (hty : s.ty = some ty) (hid : hasId ty = true → s.id.isSome = true)
+    (hunk : streamTy cfg.wt ty = .unknown) :
+    (verdict (isServer cfg) sp (.stream (streamTy cfg.wt ty))).1 = .ok ∧
+    (verdict (isServer cfg) sp .closedEarly).1 = .ok ∧
+    (∃ k, UniAccept.intoStream s = some k ∧
+      (acceptArrival cfg c (.kind k)).err = none ∧ (acceptArrival cfg c (.kind k)).conn = c ∧
+      ((acceptArrival cfg c (.kind k)).stop = none ∨
+       (acceptArrival cfg c (.kind k)).stop = some H3_STREAM_CREATION_ERROR)) ∧
+    (acceptArrival cfg c .dropped).err = none ∧ (acceptArrival cfg c .dropped).conn = c :=
+  unknown_stream_spec cfg c sp s ty hty hid hunk
+
+-- non-vacuity: a grease type (8-byte form) resolved by `resolve`, then accepted: told to stop, no
+-- error; the WebTransport type with the extension off: dropped without a word
+example : streamTy false 0x21 = .unknown ∧ streamTy false 0x54 = .unknown ∧ streamTy true 0x54 = .wtUni := by decide
+example : (UniAccept.intoStream { buf := [7], ty := some 0x21 }).map
+    (fun k => acceptArrival { role := .server } { control := true } (.kind k)) =
+    some { conn := { control := true }, stop := some 0x0103 } := by decide
+example : (UniAccept.intoStream { ty := some 0x54, id := some 4 }).map
+    (fun k => acceptArrival { role := .server, wt := false } {} (.kind k)) = some { conn := {} } := by decide
 
 /-- **The control machine raises the oracle's error.**  For every role and configuration and
     every history — unidirectional streams of any type arriving (or being dropped) in any order,
@@ -114,6 +138,50 @@ example : firstErr { role := .server } {} [.uni 2 (.kind .control), .uni 6 (.kin
     .item (.frame (.cancelPush 1)), .item (.frame (.maxPushId 1)), .item (.frame (.goaway 4)),
     .item (.frame (.goaway 0))] = none := by decide +kernel
 
+
+/-- **Where the property is silent: server push.**  `Spec.ControlRules.verdictRfc` is the table with
+    RFC 9114's demands also for the rules of server push, which the property's text does not name
+    (reading R-04b): it differs from the table the theorems above judge by only for a push stream,
+    CANCEL_PUSH, and MAX_PUSH_ID sent to a server; the oracle state it leads to is always the same.
+    Hence on every history without these three events `C04_control_machine` is conformance to RFC 9114
+    by the letter. -/
+theorem C04_rfc_table_differs_only_on_push (server : Bool) (sp : St) (e : Ev) :
+    verdictRfc server sp e = verdict server sp e ∨
+    e = .stream .push ∨ (∃ id, e = .ctl (.cancelPush id)) ∨ (∃ id, e = .ctl (.maxPushId id) ∧ server = true) :=
+  rfc_table_differs server sp e
+
+-- … and on those three the code does depart from the letter (server push is not implemented: the
+-- arms carry `//= type=TODO` citations): a push stream is dropped without an error by either role
+-- (§6.2.2: H3_STREAM_CREATION_ERROR at a server; §4.6: H3_ID_ERROR at a client that never sent
+-- MAX_PUSH_ID), a server ignores CANCEL_PUSH and a MAX_PUSH_ID that goes down (§7.2.3, §7.2.7:
+-- H3_ID_ERROR), a client answers CANCEL_PUSH with H3_FRAME_UNEXPECTED (§7.2.3: H3_ID_ERROR).
+-- Reproduced on the real code by every run of the check (NOTE lines, engine `ctlrfc`).
+example : (verdictRfc true { control := true, settings := true } (.stream .push)).1 = .must [0x0103] ∧
+    firstErr { role := .server } {} [.uni 2 (.kind .control), .item (.frame (.settings [])), .uni 6 (.kind .push)] = none := by
+  decide +kernel
+example : (verdictRfc false { control := true, settings := true } (.stream .push)).1 = .must [0x0108] ∧
+    firstErr { role := .client } {} [.uni 3 (.kind .control), .item (.frame (.settings [])), .uni 7 (.kind .push)] = none := by
+  decide +kernel
+example : (verdictRfc true { control := true, settings := true } (.ctl (.cancelPush 1))).1 = .must [0x0108] ∧
+    firstErr { role := .server } {} [.uni 2 (.kind .control), .item (.frame (.settings [])), .item (.frame (.cancelPush 1))] = none := by
+  decide +kernel
+example : (verdictRfc false { control := true, settings := true } (.ctl (.cancelPush 1))).1 = .must [0x0108] ∧
+    firstErr { role := .client } {} [.uni 3 (.kind .control), .item (.frame (.settings [])), .item (.frame (.cancelPush 1))]
+      = some 0x0105 := by
+  decide +kernel
+example : (verdictRfc true { control := true, settings := true, maxPush := some 5 } (.ctl (.maxPushId 1))).1 = .must [0x0108] ∧
+    firstErr { role := .server } {} [.uni 2 (.kind .control), .item (.frame (.settings [])),
+      .item (.frame (.maxPushId 5)), .item (.frame (.maxPushId 1))] = none := by
+  decide +kernel
+-- GOAWAY identifiers are demanded (`must`), and raised: a growing one; one that is no request id, to a client
+example : (verdict true { control := true, settings := true, lastGoaway := some 4 } (.ctl (.goaway 8))).1 = .must [0x0108] ∧
+    firstErr { role := .server } {} [.uni 2 (.kind .control), .item (.frame (.settings [])),
+      .item (.frame (.goaway 4)), .item (.frame (.goaway 8))] = some 0x0108 := by
+  decide +kernel
+example : (verdict false { control := true, settings := true } (.ctl (.goaway 3))).1 = .must [0x0108] ∧
+    firstErr { role := .client } {} [.uni 3 (.kind .control), .item (.frame (.settings [])), .item (.frame (.goaway 3))]
+      = some 0x0108 := by
+  decide +kernel
 
 -- frames of unknown type never reach the machine (`Item` has no constructor for them): the frame
 -- layer below `poll_control` (`FS.pollNext`, C02) skips them, whatever their type and length form
@@ -254,6 +322,42 @@ example : shutdownWrite {} (some (.conn (.internal 3))) =
     ({ handled := some (.remote (.internal 3)), closes := [0x0102] }, some (.remote (.internal 3))) := by decide
 example : shutdownWrite {} (some (.conn .timeout)) = ({ handled := some .timeout, closes := [] }, some .timeout) := by
   decide
+
+/-- **The peer's STOP_SENDING on the endpoint's control stream during the setup** (engine `ctl`, `x<sid>`
+    on the own streams; reading R-04c).  The `join3` of `send_control_stream_headers` ends only when all
+    three writes have ended; then a control-stream write that ended with a stream error — `poll_ready`
+    answering `StreamTerminated` when it met the stopped stream — makes `build` fail with
+    H3_CLOSED_CRITICAL_STREAM, `close(0x0104)` once, whatever happened on the QPACK streams; while one
+    of the QPACK writes is still pending `build` is pending and nothing is closed; and an error on a
+    QPACK stream alone is dropped (`let _ = stream::write(..)`): `build` returns the connection,
+    nothing is closed. -/
+theorem C04_stopped_control_stream_fails_setup {T : Type} (t : T) (c : Nat) (wd we : WSt) (p : Bool) :
+    (wd.isDone = true → we.isDone = true →
+      (joinHeaders t {} (.done (some (.terminated c))) wd we p).res = some (some (.localApp 0x0104 0)) ∧
+      (joinHeaders t {} (.done (some (.terminated c))) wd we p).st.drv.closes = [0x0104]) ∧
+    ((wd.isDone && we.isDone) = false →
+      (joinHeaders t {} (.done (some (.terminated c))) wd we p).res = none ∧
+      (joinHeaders t {} (.done (some (.terminated c))) wd we p).st.drv.closes = []) ∧
+    (∀ r1 r2, (joinHeaders t {} (.done none) (.done r1) (.done r2) p).res = some none ∧
+      (joinHeaders t {} (.done none) (.done r1) (.done r2) p).st.drv.closes = []) := by
+  refine ⟨fun h1 h2 => ?_, fun h => ?_, fun r1 r2 => ?_⟩
+  · simp [joinHeaders, h1, h2, finishHeaders, raise, ctlStreamErr, convert, closeCode, closeOf,
+      CODE_H3_CLOSED_CRITICAL_STREAM]
+  · simp [joinHeaders, h]
+  · simp [joinHeaders, WSt.isDone, finishHeaders]
+
+-- non-vacuity, the whole `build` future against a scripted transport: three streams, the control
+-- stream's `send_data` ok, its `poll_ready` meets STOP_SENDING(7), the QPACK headers go out: Err(0x104),
+-- one close; the same with the decoder's `poll_ready` pending first: `build` waits for it
+example : (buildRun scriptTr 3 [.ok, .ok, .ok, .ok, .err (.terminated 7), .ok, .ok, .ok, .ok] {}).2 =
+    ({ phase := .finished, drv := { handled := some (.localApp 0x0104 0), closes := [0x0104] } },
+     some (some (.localApp 0x0104 0))) := by decide
+example : (buildPoll scriptTr [.ok, .ok, .ok, .ok, .err (.terminated 7), .ok, .pending, .ok, .ok] {}).res = none ∧
+    (buildPoll scriptTr [.ok, .ok, .ok, .ok, .err (.terminated 7), .ok, .pending, .ok, .ok] {}).st.drv.closes = [] := by
+  decide
+-- STOP_SENDING on the two QPACK streams only: the connection is built
+example : (buildRun scriptTr 3 [.ok, .ok, .ok, .ok, .ok, .ok, .err (.terminated 7), .ok, .err (.terminated 9)] {}).2.2 =
+    some none := by decide
 
 /-- **A client that is handed a server-initiated bidirectional stream** (RFC 9114 §6.1): when the
     control loop of `poll_close` has nothing more to do and `poll_accept_bi` yields a stream, the
